@@ -64,6 +64,12 @@ func mirrors(p *MP4ChunkParser) bool {
 		forall(0, p.contentEnd, func(i int) bool { return p.buf[i] == ghostInput[ghostDelivered+i] })
 }
 
+// NewMP4ChunkParser: a fresh parser object (its fields are not needed by callers under contract).
+//@ func NewMP4ChunkParser
+//@   trusted
+//@   ensures result != nil && fresh(result)
+//@   allocates
+
 //@ func (*MP4ChunkParser).readUntil
 //@   requires p != nil && p.r != nil && mirrors(p) && 0 <= contentEnd && contentEnd <= 8589934592
 //@   ensures  mirrors(p) && ghostDelivered == old(ghostDelivered) && p.contentEnd >= old(p.contentEnd)
